@@ -43,6 +43,7 @@ const (
 	c20MaxPkts  = protocol.ByteCount(protocol.MaxCongestionWindowPackets)
 	c20T0       = monotime.Time(1_000_000_000)
 	c20HugeStep = time.Duration(1) << 62
+	c20MaxRTT   = 60 * time.Second // domain assumption: RTT samples above 60 s are not part of the domain
 )
 
 type c20Clock struct{ now monotime.Time }
@@ -55,6 +56,7 @@ type c20Run struct {
 	lo   protocol.PacketNumber
 	n    int
 	size protocol.ByteCount
+	t    monotime.Time // send time
 }
 
 type c20Ledger struct {
@@ -63,17 +65,17 @@ type c20Ledger struct {
 	count    int
 }
 
-func (l *c20Ledger) push(pn protocol.PacketNumber, size protocol.ByteCount) {
+func (l *c20Ledger) push(pn protocol.PacketNumber, size protocol.ByteCount, t monotime.Time) {
 	if k := len(l.runs); k > 0 {
 		r := &l.runs[k-1]
-		if r.size == size && r.lo+protocol.PacketNumber(r.n) == pn {
+		if r.size == size && r.t == t && r.lo+protocol.PacketNumber(r.n) == pn {
 			r.n++
 			l.inflight += size
 			l.count++
 			return
 		}
 	}
-	l.runs = append(l.runs, c20Run{lo: pn, n: 1, size: size})
+	l.runs = append(l.runs, c20Run{lo: pn, n: 1, size: size, t: t})
 	l.inflight += size
 	l.count++
 }
@@ -88,6 +90,27 @@ func (l *c20Ledger) newest() (protocol.PacketNumber, protocol.ByteCount) {
 	return r.lo + protocol.PacketNumber(r.n-1), r.size
 }
 
+// ackable reports whether an acknowledgement of the packet(s) is inside the stated domain
+// (RTT samples above 60 s are outside: a packet that old can only be declared lost).
+func (l *c20Ledger) ackable(kind int, now monotime.Time) bool {
+	if l.count == 0 || (kind > 0 && l.count < 2) {
+		return false
+	}
+	young := func(r c20Run) bool { return now.Sub(r.t) <= c20MaxRTT }
+	switch kind {
+	case 0:
+		return young(l.runs[0])
+	case 1:
+		return young(l.runs[len(l.runs)-1])
+	}
+	for _, r := range l.runs {
+		if !young(r) {
+			return false
+		}
+	}
+	return true
+}
+
 func (l *c20Ledger) remove(pn protocol.PacketNumber) {
 	for i := range l.runs {
 		r := l.runs[i]
@@ -98,10 +121,10 @@ func (l *c20Ledger) remove(pn protocol.PacketNumber) {
 		l.count--
 		var repl []c20Run
 		if k := int(pn - r.lo); k > 0 {
-			repl = append(repl, c20Run{lo: r.lo, n: k, size: r.size})
+			repl = append(repl, c20Run{lo: r.lo, n: k, size: r.size, t: r.t})
 		}
 		if k := int(r.lo + protocol.PacketNumber(r.n) - 1 - pn); k > 0 {
-			repl = append(repl, c20Run{lo: pn + 1, n: k, size: r.size})
+			repl = append(repl, c20Run{lo: pn + 1, n: k, size: r.size, t: r.t})
 		}
 		nr := append([]c20Run{}, l.runs[:i]...)
 		nr = append(nr, repl...)
@@ -133,6 +156,8 @@ type c20Cfg struct {
 	sizes     []int // send size classes: 0 full, 1 half, 2 one byte, 3 full-1
 	nonRetr   bool  // also send non-retransmittable (pure ACK) packets of 40 bytes
 	fill      bool  // "fill": full-size packets until the window is used up
+	burst     bool  // "burst": full-size packets back to back for as long as the pacer authorises them
+	paced     int   // "paced": this many times { wait until TimeUntilSend; send a full-size packet if authorised }
 	acks      []int // 0 oldest, 1 newest, 2 all outstanding (one ACK frame)
 	losses    []int // 0 oldest, 1 newest
 	rtts      []time.Duration
@@ -168,8 +193,7 @@ type c20Inst struct {
 	rtoN      int
 	rttN      int
 	hugeUsed  bool
-	bigJump   bool // the history contains a clock step of one hour or more
-	rtoSeen   bool
+	burstDone bool // no clock step since the last burst (a second burst would be empty)
 	minRTTAck time.Duration // MinRTT at the previous ack event
 	recs      []c20Rec
 	outcome   string
@@ -218,14 +242,19 @@ func (in *c20Inst) Ops() []explore.Op {
 	if c.nonRetr {
 		ops = append(ops, explore.Op{N: "send", A: 4, B: 0})
 	}
+	if c.burst && !in.burstDone {
+		ops = append(ops, explore.Op{N: "burst"})
+	}
+	if c.paced > 0 && !in.hugeUsed {
+		ops = append(ops, explore.Op{N: "paced"})
+	}
 	if c.fill && in.led.inflight < in.s.GetCongestionWindow() {
 		ops = append(ops, explore.Op{N: "fill"})
 	}
 	for _, k := range c.acks {
-		if in.led.count == 0 || (k > 0 && in.led.count < 2) {
-			continue
+		if in.led.ackable(k, in.clk.now) {
+			ops = append(ops, explore.Op{N: "ack", A: k})
 		}
-		ops = append(ops, explore.Op{N: "ack", A: k})
 	}
 	for _, k := range c.losses {
 		if in.led.count == 0 || (k > 0 && in.led.count < 2) {
@@ -276,20 +305,6 @@ func (in *c20Inst) phase() string {
 	default:
 		return "ca"
 	}
-}
-
-func (in *c20Inst) hist() string {
-	var h []string
-	if in.rtoSeen {
-		h = append(h, "after-rto")
-	}
-	if in.bigJump {
-		h = append(h, "clock-jump>=1h")
-	}
-	if len(h) == 0 {
-		return ""
-	}
-	return ":" + strings.Join(h, ",")
 }
 
 func c20Delta(a, b protocol.ByteCount) string {
@@ -346,10 +361,6 @@ func (in *c20Inst) sendOne(size protocol.ByteCount, retr bool, countPacer bool) 
 		in.sample()
 		budget := in.s.pacer.Budget(now)
 		auth = budget >= size
-		// cross-check against the exported gate used by SendMode
-		if size == in.mds && auth != in.s.HasPacingBudget(now) {
-			explore.Must(false, "HasPacingBudget disagrees with Budget()>=mds")
-		}
 		if auth {
 			in.recs = append(in.recs, c20Rec{t: now, bwMax: in.bw(), mdsMax: in.mds})
 			for i := range in.recs {
@@ -361,7 +372,7 @@ func (in *c20Inst) sendOne(size protocol.ByteCount, retr bool, countPacer bool) 
 					if now != r.t {
 						cls = "interval"
 					}
-					return true, explore.Failf("pacer-over-authorised:"+in.algo()+":"+cls+in.hist(),
+					return true, explore.Failf("pacer-over-authorised:"+in.algo()+":"+cls,
 						"pacer authorised %d bytes in an interval of %d ns (packets sent at %d..%d ns after start); bound: one burst + 1.25*bw*dt + 1 datagram = %d bytes with bw=%d B/s (largest estimate in the interval), datagram size %d",
 						r.sum, now.Sub(r.t), r.t.Sub(c20T0), now.Sub(c20T0), allowed, r.bwMax, r.mdsMax)
 				}
@@ -372,7 +383,7 @@ func (in *c20Inst) sendOne(size protocol.ByteCount, retr bool, countPacer bool) 
 	in.nextPN++
 	cw0 := in.s.GetCongestionWindow()
 	if retr {
-		in.led.push(pn, size)
+		in.led.push(pn, size, now)
 		in.largestR = pn
 	}
 	in.s.OnPacketSent(now, in.led.inflight, pn, size, retr)
@@ -385,11 +396,11 @@ func (in *c20Inst) sendOne(size protocol.ByteCount, retr bool, countPacer bool) 
 func (in *c20Inst) bounds(ev string) *explore.Fail {
 	cw := in.s.GetCongestionWindow()
 	if cw < 2*in.mds {
-		return explore.Failf("cwnd-below-two-packets:"+in.algo()+":"+ev+in.hist(),
+		return explore.Failf("cwnd-below-two-packets:"+in.algo()+":"+ev,
 			"after %s: cwnd = %d bytes < 2 full-size packets = %d (datagram size %d)", ev, cw, 2*in.mds, in.mds)
 	}
 	if cw > c20MaxPkts*in.mds+in.mds {
-		return explore.Failf("cwnd-above-maximum:"+in.algo()+":"+ev+in.hist(),
+		return explore.Failf("cwnd-above-maximum:"+in.algo()+":"+ev,
 			"after %s: cwnd = %d bytes > maximum %d + one packet %d", ev, cw, c20MaxPkts*in.mds, in.mds)
 	}
 	return nil
@@ -408,13 +419,15 @@ func (in *c20Inst) ackOne(pn protocol.PacketNumber, size, prior protocol.ByteCou
 		cls := "other"
 		if minRTT < in.minRTTAck {
 			cls = "min-rtt-decreased-since-previous-ack"
+		} else if ep := in.s.cubic.epoch; !in.cfg.reno && !ep.IsZero() && in.clk.now.Sub(ep) >= 273*time.Second {
+			cls = "cubic-epoch-older-than-273s"
 		}
-		return "", explore.Failf("cwnd-shrinks-on-ack:"+in.algo()+":"+ph+":"+cls+in.hist(),
+		return "", explore.Failf("cwnd-shrinks-on-ack:"+in.algo()+":"+ph+":"+cls,
 			"acknowledgement of packet %d (%d bytes, prior in flight %d) shrank cwnd %d -> %d (%s, min RTT %s, previous ack saw %s)",
 			pn, size, prior, cw0, cw1, ph, minRTT, in.minRTTAck)
 	}
 	if cw1 > cw0 && !lim {
-		return "", explore.Failf("cwnd-grows-not-window-limited:"+in.algo()+":"+ph+in.hist(),
+		return "", explore.Failf("cwnd-grows-not-window-limited:"+in.algo()+":"+ph,
 			"acknowledgement of packet %d grew cwnd %d -> %d although only %d bytes were in flight (not window-limited: %d bytes of room > 3 packets, slow start=%v)",
 			pn, cw0, cw1, prior, cw0-prior, ss0)
 	}
@@ -431,7 +444,7 @@ func (in *c20Inst) loseOne(pn protocol.PacketNumber, size, prior protocol.ByteCo
 	in.led.remove(pn)
 	cw1 := in.s.GetCongestionWindow()
 	if cw1 > cw0 {
-		return "", explore.Failf("cwnd-grows-on-loss:"+in.algo()+in.hist(), "loss of packet %d grew cwnd %d -> %d", pn, cw0, cw1)
+		return "", explore.Failf("cwnd-grows-on-loss:"+in.algo(), "loss of packet %d grew cwnd %d -> %d", pn, cw0, cw1)
 	}
 	old := "new-window"
 	if pn <= in.horizon {
@@ -439,7 +452,7 @@ func (in *c20Inst) loseOne(pn protocol.PacketNumber, size, prior protocol.ByteCo
 	}
 	if cw1 < cw0 {
 		if pn <= in.horizon {
-			return "", explore.Failf("cwnd-shrinks-twice-per-window:"+in.algo()+in.hist(),
+			return "", explore.Failf("cwnd-shrinks-twice-per-window:"+in.algo(),
 				"loss of packet %d shrank cwnd %d -> %d, but the window had already been reduced for a loss when packets up to %d were outstanding",
 				pn, cw0, cw1, in.horizon)
 		}
@@ -463,6 +476,36 @@ func (in *c20Inst) Apply(op explore.Op) *explore.Fail {
 			return f
 		}
 		in.outcome = fmt.Sprintf("send class=%d retr=%v auth=%v full=%v", op.A, retr, auth, in.led.inflight >= in.s.GetCongestionWindow())
+	case "burst":
+		n := 0
+		for ; n < 16; n++ {
+			if in.s.pacer.Budget(in.clk.now) < in.mds {
+				break
+			}
+			auth, f := in.sendOne(in.mds, true, true)
+			if f != nil {
+				return f
+			}
+			explore.Must(auth, "burst: packet not authorised")
+		}
+		in.burstDone = true
+		in.outcome = fmt.Sprintf("burst n=%d", n)
+	case "paced":
+		n := 0
+		for i := 0; i < c.paced; i++ {
+			if t := in.s.TimeUntilSend(in.led.inflight); t > in.clk.now {
+				in.clk.now = t
+				in.burstDone = false
+			}
+			if in.s.pacer.Budget(in.clk.now) < in.mds {
+				continue
+			}
+			if _, f := in.sendOne(in.mds, true, true); f != nil {
+				return f
+			}
+			n++
+		}
+		in.outcome = fmt.Sprintf("paced n=%d", n)
 	case "fill":
 		n := 0
 		for in.led.inflight < in.s.GetCongestionWindow() {
@@ -485,13 +528,15 @@ func (in *c20Inst) Apply(op explore.Op) *explore.Fail {
 			oc, f = in.ackOne(pn, sz, prior)
 		case 2:
 			pns, szs := in.led.all()
+			last := ""
 			for i := range pns {
 				var o string
 				if o, f = in.ackOne(pns[i], szs[i], prior); f != nil {
 					break
 				}
-				if i == 0 || o != oc {
+				if o != last {
 					oc += "/" + o
+					last = o
 				}
 			}
 		}
@@ -537,7 +582,6 @@ func (in *c20Inst) Apply(op explore.Op) *explore.Fail {
 		// not an event of the quantifier (and never called by the production code): modelled
 		// as a timeout-loss response that starts a new window of packets.
 		in.rtoN++
-		in.rtoSeen = true
 		cw0 := in.s.GetCongestionWindow()
 		in.s.OnRetransmissionTimeout(op.A == 1)
 		in.horizon = protocol.InvalidPacketNumber
@@ -553,18 +597,14 @@ func (in *c20Inst) Apply(op explore.Op) *explore.Fail {
 		} else {
 			in.hugeUsed = true
 		}
-		if d >= time.Hour {
-			in.bigJump = true
-		}
 		in.clk.now = in.clk.now.Add(d)
+		in.burstDone = false
 		in.outcome = fmt.Sprintf("adv%d", op.A)
 	case "advpace":
 		t := in.s.TimeUntilSend(in.led.inflight)
 		explore.Must(t > in.clk.now, "advpace not enabled")
-		if t.Sub(in.clk.now) >= time.Hour {
-			in.bigJump = true
-		}
 		in.clk.now = t
+		in.burstDone = false
 		in.outcome = fmt.Sprintf("advpace budget-ok=%v", in.s.HasPacingBudget(t))
 	default:
 		explore.Must(false, "unknown op %v", op)
@@ -605,10 +645,10 @@ func (in *c20Inst) Key() string {
 		skip = c20SkipCCNoPacer
 	}
 	sb.WriteString(canon.Dump(in.s, canon.Options{TimeBase: base, SkipField: skip}))
-	fmt.Fprintf(&sb, "|pn=%d lr=%d hz=%d mds=%d mtu=%d rto=%d rtt=%d huge=%v big=%v rs=%v mra=%d|", in.nextPN, in.largestR, in.horizon,
-		in.mds, in.mtuN, in.rtoN, in.rttN, in.hugeUsed, in.bigJump, in.rtoSeen, in.minRTTAck)
+	fmt.Fprintf(&sb, "|pn=%d lr=%d hz=%d mds=%d mtu=%d rto=%d rtt=%d huge=%v bd=%v mra=%d|", in.nextPN, in.largestR, in.horizon,
+		in.mds, in.mtuN, in.rtoN, in.rttN, in.hugeUsed, in.burstDone, in.minRTTAck)
 	for _, r := range in.led.runs {
-		fmt.Fprintf(&sb, "%d+%dx%d,", r.lo, r.n, r.size)
+		fmt.Fprintf(&sb, "%d+%dx%d@%d,", r.lo, r.n, r.size, int64(r.t)-base)
 	}
 	sb.WriteByte('|')
 	for _, r := range in.recs {
